@@ -20,6 +20,11 @@ CHECKS = {
                   'end to end on arrays of distinct symbolic cells for every start/stop of a stated range; (C) squeeze. '
                   'Counterexamples are replayed on plain numpy arrays.',
              design='DESIGN.md section 4 C09'),
+ 'C05': dict(technique='bounded symbolic execution of the real Student test (symrun + z3 QF_NRA); scipy laws as uninterpreted functions with monotonicity/symmetry/quantile axioms; differential against the statement formula',
+             text='For every extended-real cell (finite, NaN, +-inf), alpha in (0,1) and any ndf, on every path of the real code z3 decides '
+                  'verdict <=> all bins compatible, oracles()/p-value decision/test_pvalue() == per-bin formula, plus relational twins '
+                  '(symmetry, rescaling, monotonicity) as two executions inside one query. Bounded by shape/number of datasets.',
+             design='DESIGN.md section 4 C05'),
 }
 
 NOT_YET = {}
